@@ -132,3 +132,79 @@ func init() {
 	parts = append(parts, engine.Part[Duplex]{Name: "duplex", Run: runDuplex, Enum: enumDuplex,
 		Rule: "header framings used in both directions at once: while a record of 16 MiB and more is still arriving (paused inside its header, early and late in its body), the same channel sends 1-3 small records; the large record, the one after it and the small ones must all arrive byte for byte; every case is non-trivial; distinct = the case"})
 }
+
+// Twin: two channels made from one Framing value are independent: while one
+// is in the middle of writing a record, the other sends one of its own.
+type Twin struct {
+	Framing string `json:"framing"`
+	SizeA   int    `json:"size_a"`
+	SizeB   int    `json:"size_b"`
+}
+
+// hookWriter calls hook once, inside its first Write, before it looks at the bytes.
+type hookWriter struct {
+	buf  bytes.Buffer
+	hook func()
+	done bool
+}
+
+func (h *hookWriter) Write(p []byte) (int, error) {
+	if !h.done {
+		h.done = true
+		h.hook()
+	}
+	return h.buf.Write(p)
+}
+func (h *hookWriter) Close() error { return nil }
+
+func runTwin(_ *testing.T, tw Twin) engine.Verdict {
+	fr, _, _ := framingOf(tw.Framing)
+	quoted := func(n int, c byte) []byte { // a JSON string of letters: legal on every framing
+		b := bytes.Repeat([]byte{c}, n+2)
+		b[0], b[len(b)-1] = '"', '"'
+		return b
+	}
+	recA, recB := quoted(tw.SizeA, 'a'), quoted(tw.SizeB, 'B')
+	var outB bufWC
+	chB := fr(emptyReader{}, &outB)
+	wa := &hookWriter{}
+	var errB error
+	wa.hook = func() { errB = chB.Send(recB) } // the other channel sends while this one is writing
+	chA := fr(emptyReader{}, wa)
+	if err := chA.Send(recA); err != nil || errB != nil {
+		return engine.Failf("C11/"+tw.Framing+"/send-error", "Send: %v / %v", err, errB)
+	}
+	for name, x := range map[string]struct {
+		wire []byte
+		want []byte
+	}{"first": {wa.buf.Bytes(), recA}, "second": {outB.Bytes(), recB}} {
+		got, err := fr(bytes.NewReader(x.wire), nopWC{}).Recv()
+		if err != nil || !bytes.Equal(got, x.want) {
+			return engine.Failf("C11/"+tw.Framing+"/record-differs", "two channels made from one framing value, the second sends while the first is writing: the %s channel's peer decodes %s (%v), want %s", name, engine.Q(clip(got)), err, engine.Q(clip(x.want)))
+		}
+	}
+	return engine.Verdict{NonTrivial: true, Labels: []string{"twin", "framing:" + tw.Framing}}
+}
+
+func enumTwin(env engine.Env, yield func(Twin) bool) {
+	idx := 0
+	for _, f := range framingNames {
+		if f == "direct" {
+			continue
+		}
+		for _, a := range []int{2, 40, 5000} {
+			for _, b := range []int{2, 41, 70000} {
+				idx++
+				if env.Mine(idx) && !yield(Twin{Framing: f, SizeA: a, SizeB: b}) {
+					return
+				}
+			}
+		}
+	}
+}
+
+func init() {
+	parts = append(parts, engine.Part[Twin]{Name: "twin", Run: runTwin, Enum: enumTwin,
+		Rule:           "two channels made from the same Framing value (every stream framing): the second sends a record from inside the first one's transport Write; both peers must decode exactly the record sent to them; every case is non-trivial; distinct = the case",
+		EnumExhaustive: "all framings x three record sizes on either side"})
+}
